@@ -4,6 +4,7 @@ use crate::engine::Property;
 pub mod c01;
 pub mod c02;
 pub mod c03;
+pub mod c04;
 pub mod c06;
 pub mod c07;
 pub mod c08;
@@ -14,6 +15,7 @@ pub mod c13;
 pub mod c14;
 pub mod c15;
 pub mod c16;
+pub mod c19;
 pub mod simcase;
 
 pub fn all() -> Vec<Box<dyn Property>> {
@@ -21,6 +23,7 @@ pub fn all() -> Vec<Box<dyn Property>> {
         Box::new(c01::C01),
         Box::new(c02::C02),
         Box::new(c03::C03),
+        Box::new(c04::C04),
         Box::new(c06::C06),
         Box::new(c07::C07),
         Box::new(c08::C08),
@@ -31,6 +34,7 @@ pub fn all() -> Vec<Box<dyn Property>> {
         Box::new(c14::C14),
         Box::new(c15::C15),
         Box::new(c16::C16),
+        Box::new(c19::C19),
     ]
 }
 
